@@ -468,6 +468,42 @@ class ProgGen:
             self.p.functions.append((ns, PFunc("func", fname, t.pick(rets[:3], "ov-fret"),
                                                [PArg(a.ty, a.name, a.default) for a in sigs[sg]])))
 
+    def force_samenames(self):
+        """names that are easy to confuse in generated text: a class whose name is a prefix of another's, and
+        the same class name in two namespaces (and at top level); every one of them with objects created,
+        returned, passed to a function of the other, and alive at unload"""
+        t = self.t
+        base = self.fresh(["Node", "Frame", "Unit"])
+        nsA = t.pick(NSN, "sn-ns")
+        nsB = t.pick([n for n in NSN if n != nsA], "sn-ns2")
+        # (no same-named class at top level: an unqualified top-level name would be shadowed inside nsA in C++)
+        specs = [(base, [nsA]), (base + "2", [nsA]), (base, [nsB]), (base + "2d", [nsA, "inner"]), (base + "2dx", [])]
+        if t.bool(0.5, "sn-drop"):
+            specs.pop(1 + t.choose(len(specs) - 1, "sn-which"))
+        specs = t.shuffle(specs, "sn-order")      # declaration order matters to text-based bookkeeping
+        I, D = PType("prim", "int"), PType("prim", "double")
+        made = []
+        for k, (nm, ns) in enumerate(specs):
+            self.names.add(nm)
+            c = PClass(nm, ns)
+            self.p.classes.append(c)
+            c.ctors.append(PFunc("ctor", nm, None, [PArg(D, "w", (repr(0.5 + k), 0.5 + k))]))
+            c.methods.append(PFunc("method", "id%d" % k, I, [], const=True))
+            c.methods.append(PFunc("method", "same", I, [PArg(I, "n")], const=True))
+            c.statics.append(PFunc("static", "Make", PType("class", c.qname, t.pick(["sptr", "val"], "sn-ret")),
+                                   [PArg(I, "n")]))
+            c.props.append((self.fresh(PROPN + ["tag%d" % k]), t.pick([I, D], "sn-prop")))
+            made.append(c)
+        for k, c in enumerate(made):
+            if k == 0:
+                continue
+            o = made[k - 1]          # declared earlier: complete in the library header
+            c.methods.append(PFunc("method", "meet", I, [PArg(PType("class", o.qname, "cref"), "other"),
+                                                          PArg(PType("class", c.qname, "sptr"), "me")]))
+        self.p.functions.append(([], PFunc("func", self.fresh(["pairUp", "link", "join2"]), I,
+                                           [PArg(PType("class", made[0].qname, "cref"), "a"),
+                                            PArg(PType("class", made[-1].qname, "sptr"), "b")])))
+
     def force_enum_nested(self):
         self.force_enum(nested=True)
 
